@@ -16,6 +16,7 @@ import (
 	"verifharness/gen"
 	"verifharness/indep"
 	"verifharness/spec"
+	"verifharness/stats"
 )
 
 // C15 — merged vector indexes hold exactly the survivors' vectors, renumbered.
@@ -255,4 +256,32 @@ func compareProbesWithRebuild(prop, tag string, merged *indep.File, want *spec.O
 		}
 	}
 	return nil
+}
+
+// Deterministic plans whose leaves were written by OTHER processes (what a process finds after a
+// restart): the leaves hold the same vectors in the same order - whatever a writer derives from
+// process-wide state (counters, random sources) may therefore coincide between them - under
+// different document ids. Merged once, and the result merged again with a further such file.
+func TestC15Restart(t *testing.T) {
+	col := stats.New("C15", "merge-vectors")
+	defer col.Write()
+	mk := func(tag string, n int) spec.MergePlan {
+		b := &spec.BatchSpec{}
+		for i := 0; i < n; i++ {
+			d := spec.DocSpec{ID: spec.B(fmt.Sprintf("%s%02d", tag, i))}
+			if i%4 != 3 {
+				d.Fields = append(d.Fields, spec.FieldSpec{Name: "vec", Kind: spec.KindVec, Vec: &spec.VecSpec{Dim: 2, Data: []float32{float32(i % 3), float32(i)}, Metric: "l2_norm", Opt: "recall"}})
+			}
+			if i%5 == 0 {
+				d.Fields = append(d.Fields, spec.FieldSpec{Name: "vec", Kind: spec.KindVec, Vec: &spec.VecSpec{Dim: 2, Data: []float32{7, float32(i)}, Metric: "l2_norm", Opt: "recall"}})
+			}
+			b.Docs = append(b.Docs, d)
+		}
+		return spec.MergePlan{Leaf: b, Child: true}
+	}
+	inner := spec.MergePlan{Children: []spec.MergePlan{mk("a", 12), mk("b", 12), mk("c", 9)},
+		Drops: []spec.DropSpec{{Nil: true}, {Docs: []uint32{0, 5}}, {Docs: []uint32{2}}}}
+	c := planCase{Plan: &spec.MergePlan{Children: []spec.MergePlan{inner, mk("d", 12)}, Drops: []spec.DropSpec{{Docs: []uint32{1}}, {Nil: true}}}}
+	col.CaseHash(stats.HashJSON("fixed-leaves-from-other-processes"), true, []string{"leaves-written-by-other-processes", "second-generation"}, func() any { return sampleOf(c) })
+	reportBig(t, col, "C15", "merge-vectors", c, safeRun(c15, c))
 }
